@@ -175,6 +175,11 @@ def batch_body(ctx, case):
     tol = 1e-12 if case["dtype"] == "float64" else 1e-5
     differ = n >= 2 and not np.array_equal(stack[0], stack[1])
     ctx.case(case, nontrivial=bool(differ and (t > 0 or which != "cog")), classes=[which, "n%d" % n, "t0" if t == 0 else "t_pos", case["dtype"]])
+    # the frames are the caller's data: the same stack is centroided again with another threshold, or by another centroider
+    keep, arg = stack.copy(), stack.copy()
+    c.centre_of_gravity(arg, threshold=t)
+    c.centre_of_gravity(arg[0], threshold=t)
+    ctx.equal(arg, keep, "centre_of_gravity(%s stack, threshold=%r) modified the stack it was given" % (case["dtype"], t), nan_ok=True)
     if which in ("cog", "quad") and n >= 2:
         # "2d or greater rank": two leading axes must give the per-frame answers too
         s4 = np.stack([stack, stack[::-1]])
